@@ -304,6 +304,8 @@ def observe_one(arg: tuple[int, dict]) -> dict:
     ks = 0
     while ks < min(len(old_lines), len(new_lines)) - kp and old_lines[-1 - ks] == new_lines[-1 - ks]:
         ks += 1
+    if old_lines == new_lines:
+        ks = kp
     new_dump = _dump(new_src)
     parses = new_dump is not None
     # (parses = False: the remaining facts cannot be evaluated and are recorded as True)
@@ -313,10 +315,10 @@ def observe_one(arg: tuple[int, dict]) -> dict:
         ins = adds[0]
         ins_indent = (len(ins) - len(ins.lstrip())) // 4
         if parses and dele:
-            row = min(dele)
-            toks = [t for t in tokenize.generate_tokens(io.StringIO(new_src).readline) if t.start[0] <= row <= t.end[0]]
-            ins_comment = any(tokenize.tok_name[t.type] == "COMMENT" and t.start[0] == row for t in toks) and not any(
-                tokenize.tok_name[t.type] in ("STRING", "FSTRING_MIDDLE") and t.start[0] <= row <= t.end[0] for t in toks)
+            # the added ignore text must be lexed as a COMMENT token (on one of the added lines)
+            rows = range(min(dele), min(dele) + len(adds))
+            ins_comment = any(tokenize.tok_name[t.type] == "COMMENT" and t.start[0] in rows and "static analysis: ignore" in t.string
+                              for t in tokenize.generate_tokens(io.StringIO(new_src).readline))
     gone = clean = True
     final = new_src
     if parses:
@@ -335,6 +337,7 @@ def observe_one(arg: tuple[int, dict]) -> dict:
         final = cur
     return {"tid": tid, "event": "Obs", "case": case, "lines": lex_attrs(src), "extent": [first, last],
             "nodeline": stmt.lineno, "diagline": diagline, "del": sorted(dele), "added": len(adds or []),
+            "proposed": bool(changes) and adds is not None,
             "nchanges": len(changes), "ins_indent": ins_indent, "ins_comment": bool(ins_comment),
             "keep_prefix": kp, "keep_suffix": ks, "newlen": len(new_lines), "parses": bool(parses),
             "intended": bool(intended), "gone": bool(gone), "clean": bool(clean), "cli_same": True,
@@ -402,9 +405,7 @@ def _adjudicate(check: core.Check, obs: list[dict], label: str, by_tid: dict[int
 
 def run_part_c(check: core.Check, quick: bool) -> None:
     cfg = "FixLayout.quick.cfg" if quick else "FixLayout.full.cfg"
-    res = core.require_ok(core.run_tlc("FixLayout", cfg, coverage=True, timeout=1700), "FixLayout exhaustive")
-    core.require_coverage(res, ["PickKind", "PickLayout", "PickBlock", "PickBefore", "PickAfter", "PickEof",
-                                "ImplSamePart", "ImplExtend", "ImplApply", "RefInsertSafe"], "FixLayout")
+    res = core.require_ok(core.run_tlc("FixLayout", cfg, timeout=1700), "FixLayout exhaustive")
     check.add_tlc("layout:exhaustive:" + cfg, res)
     for scfg, inv in (("FixLayout.strict1.cfg", "RangeStrict"), ("FixLayout.strict2.cfg", "InsertStrict"),
                       ("FixLayout.anylone.cfg", "RangeExact")):
@@ -417,7 +418,10 @@ def run_part_c(check: core.Check, quick: bool) -> None:
     cases: dict[str, dict] = {}
     for ecfg in (["FixLayout.emitA.cfg", "FixLayout.emitB.cfg", "FixLayout.emitC.cfg", "FixLayout.emitD.cfg"]
                  if quick else ["FixLayout.emitfull.cfg"]):
-        em = core.require_ok(core.run_tlc("FixLayoutEmit", ecfg, timeout=1700), "FixLayout emit " + ecfg)
+        # (vacuity control on the small emission runs: TLC's coverage mode is slow on the full product)
+        em = core.require_ok(core.run_tlc("FixLayoutEmit", ecfg, coverage=quick, timeout=1700), "FixLayout emit " + ecfg)
+        if quick:
+            core.require_coverage(em, ["PickKind", "PickLayout", "PickBlock", "PickBefore", "PickAfter", "PickEof"], "FixLayout")
         check.add_tlc("layout:emit:" + ecfg, em)
         for c in core.emitted_json(em):
             cases.setdefault(core.canon(c), c)
